@@ -78,6 +78,8 @@ def execute(c, proc_factory, n_calls=None):
     ctx = Ctx(compact=True)
     g, vals, kw, method, mapped, wrapper_graph = prepare(c, ctx, flavour)
     cache = _FailingSetCache(InMemoryCache()) if c.get("cache_set_fails") else InMemoryCache()
+    if c.get("cache_get_fails") is not None:
+        cache = _FailingGetCache(cache, c["cache_get_fails"])
     runner = SyncRunner(cache=cache) if runner_kind == "sync" else AsyncRunner(cache=cache)
     calls = []
     for i in range(n_calls or c["runs"]):
@@ -152,6 +154,26 @@ class _FailingSetCache:
         raise CacheSetFault("cache backend refused the write")
 
 
+class CacheGetFault(RuntimeError):
+    pass
+
+
+class _FailingGetCache:
+    """Cache backend whose k-th get() raises (a network cache that is briefly unreachable)."""
+
+    def __init__(self, inner, k):
+        self.inner, self.k, self.n = inner, k, 0
+
+    def get(self, key):
+        self.n += 1
+        if self.n - 1 == self.k:
+            raise CacheGetFault("cache backend unreachable")
+        return self.inner.get(key)
+
+    def set(self, key, value):
+        return self.inner.set(key, value)
+
+
 def _is_validation(e):
     m = str(e)
-    return any(s in m for s in ("entry point", "Ambiguous cycle entry", "Invalid select", "internal override", "Input keys", "Invalid on_missing", "Invalid error_handling"))
+    return any(s in m for s in ("entry point", "Ambiguous cycle entry", "Invalid select", "internal override", "Input keys", "Invalid on_missing", "Invalid error_handling", "Too many map tasks"))
